@@ -35,6 +35,7 @@ fn main() {
     let args = rv_common::parse_args();
     let code = match args.prop.as_str() {
         "probe" => probe(),
+        "probe-children" => c32::probe_children(),
         "C32" => c32::run(&args),
         "C33" => c33::run(&args),
         "C34" => c34::run(&args),
